@@ -4,7 +4,10 @@ import DspVerif.Model.Lru
 /-! driver handlers for C09:
 * `footprint <kind>`  — the lists of the model's footprint table (Model/Conc.lean), sorted
 * `rng <threads> <n> <t:kS | t:uN | t:vN>…` — an interleaving of rng(S) / N draws of rand() over per-thread mt19937 engines
-* `keys <cap> <n> <op>…` — final plan-cache keys of ONE thread, computed from its own calls only (Model/Lru.lean)
+* `keys <cap> <n> <op>…` — final plan-cache keys of ONE thread, computed from its own calls only (Model/Lru.lean);
+  the ops include calls that throw (`e`/`m` irfft with odd n / wrong spectrum size, `T`/`Q` const solve with a wrong-size input)
+  and single calls with lengths above 2^16
+* `fpenv <kind> <calls>` — how many calls of this kind change the caller's floating-point environment (table `writesFpEnv`: none)
 * `scenario <threads> (<n> <op>…)…` — is the sharing pattern of the scenario admitted by the table (`exclusive`)? -/
 namespace Dsp.Driver
 open Dsp.Proto Dsp.Conc
@@ -57,7 +60,10 @@ def lruOps (k : Char) (a b : Nat) : List Dsp.Lru.Op :=
   | 'x' => let m := pow2ge (a + b - 1); [.fftC m, .fftC m, .fftC m]                -- fft, fft, ifft of length 2^nextpow2(n1+n2-1)
   | 'w' => [.fftR (pow2ge b)]                                                    -- every segment: real fft of length 2^nextpow2(winlen)
   | 'F' => [.fftC (pow2ge (2 * a))]                                              -- FftFilter(h): fft(conj(h), fft_len)
-  | _ => []                                                                      -- s g u j k q S: no factory request; p: see below
+  -- calls that THROW.  `irfft(x, n)` with odd n / with a wrong number of bins: `IfftPlanR(n)` has already requested
+  -- `FftPlan(n/2)` (member initialiser) when the size check fails, so the failed call leaves the same cache state as a valid one
+  | 'e' | 'm' => [.irfft a]
+  | _ => []                                                                      -- s g u j k q S: no factory request; T Q: const solve rejects the input before anything else; p: see below
 
 def fmtKeys9 (s : Dsp.Lru.FftState Nat) : String :=
   let kc := s.cC.keys.map (fun (k : Nat) => (k : Int))
@@ -109,6 +115,10 @@ def h09 : List String → Option String
         (s, (flen, blk, (fill + a) % blk))
       else (s, (flen, blk, fill))) (Dsp.Lru.FftState.init cap, (0, 0, 0))
     some (fmtKeys9 s)
+  | ["fpenv", kind, _calls] =>
+    match kind.toList with
+    | [k] => some (if (apisOfKind k).any writesFpEnv then "some" else "0")
+    | _ => none
   | "scenario" :: nt :: rest => do
     let nt ← nt.toNat?
     let ps ← takePrograms nt rest
